@@ -121,3 +121,74 @@ Proof.
     destruct (assoc n (gnodes ex_its)); simpl; [unfold relab6; destruct (N.eqb n 6); reflexivity|reflexivity].
   - intros a b x I R. vm_compute in I. repeat (destruct I as [I|I]; [inversion I; subst; try (vm_compute in R; discriminate); split; reflexivity|]). destruct I.
 Qed.
+
+(** * the same for every option setting with disconnected = False and for every label shape: generic in the node type *)
+From SK Require Import model.C01_Opts model.C02_Store proof.C02_Opts proof.C02_Store proof.C02_StoreCtx2.
+Section SpectatorG.
+Variable A : Type.
+Variables sel selhh : A -> A.
+Variables ish cc : A -> bool.
+Variable m : bool.
+
+Definition relevant_g (g : lgraph A xedge) (e : N * N * xedge) : bool :=
+  include_x m (snd e) || is_hh_g ish g (fst (fst e)) (snd (fst e)).
+
+Lemma ensure_g_same (f : A -> A) (g g' : lgraph A xedge) : gnodes g' = gnodes g -> forall n ns, ensure_g f g' n ns = ensure_g f g n ns.
+Proof. intros E n ns. unfold ensure_g, label. rewrite E. reflexivity. Qed.
+Lemma is_hh_g_same (g g' : lgraph A xedge) : gnodes g' = gnodes g -> forall u v, is_hh_g ish g' u v = is_hh_g ish g u v.
+Proof. intros E u v. unfold is_hh_g, is_h_g, label. rewrite E. reflexivity. Qed.
+
+Lemma fold_changed_g_relevant (g : lgraph A xedge) L : forall st,
+  fold_left (step_changed_g sel m g) L st = fold_left (step_changed_g sel m g) (filter (relevant_g g) L) st.
+Proof.
+  induction L as [|[[u v] x] L IH]; intros st; [reflexivity|]. cbn [fold_left filter].
+  destruct (relevant_g g (u, v, x)) eqn:R; [cbn [fold_left]; apply IH|].
+  unfold relevant_g in R. cbn [fst snd] in R. apply orb_false_iff in R. destruct R as [C _].
+  assert (step_changed_g sel m g st (u, v, x) = st) as -> by (unfold step_changed_g; rewrite C; reflexivity). apply IH.
+Qed.
+Lemma fold_hh_g_relevant (g : lgraph A xedge) L : forall st,
+  fold_left (step_hh_g selhh ish g) L st = fold_left (step_hh_g selhh ish g) (filter (relevant_g g) L) st.
+Proof.
+  induction L as [|[[u v] x] L IH]; intros st; [reflexivity|]. cbn [fold_left filter].
+  destruct (relevant_g g (u, v, x)) eqn:R; [cbn [fold_left]; apply IH|].
+  unfold relevant_g in R. cbn [fst snd] in R. apply orb_false_iff in R. destruct R as [_ Hh].
+  assert (step_hh_g selhh ish g st (u, v, x) = st) as -> by (unfold step_hh_g; rewrite Hh; reflexivity). apply IH.
+Qed.
+
+Theorem rcg_same_relevant (g g' : lgraph A xedge) : gnodes g' = gnodes g ->
+  filter (relevant_g g) (gedges g') = filter (relevant_g g) (gedges g) ->
+  get_rc_g sel selhh ish cc false m g' = get_rc_g sel selhh ish cc false m g.
+Proof.
+  intros En Ee. unfold get_rc_g. cbv zeta.
+  assert (forall st e, step_changed_g sel m g' st e = step_changed_g sel m g st e) as S1.
+  { intros st [[u v] x]. unfold step_changed_g. rewrite !(ensure_g_same sel g g' En). reflexivity. }
+  assert (forall st e, step_hh_g selhh ish g' st e = step_hh_g selhh ish g st e) as S2.
+  { intros st [[u v] x]. unfold step_hh_g. rewrite (is_hh_g_same g g' En), !(ensure_g_same selhh g g' En). reflexivity. }
+  rewrite (fold_ext_step _ _ _ S1), (fold_ext_step _ _ _ S2).
+  rewrite (fold_changed_g_relevant g (gedges g')), (fold_changed_g_relevant g (gedges g)), Ee.
+  rewrite (fold_hh_g_relevant g (gedges g')), (fold_hh_g_relevant g (gedges g)), Ee. reflexivity.
+Qed.
+End SpectatorG.
+
+(** instances: every element_key / keep_mtg (disconnected = False), optional labels and pair labels *)
+Corollary rcx_same_relevant K m (g g' : xits) : gnodes g' = gnodes g ->
+  filter (fun e : N * N * xedge => include_x m (snd e) || is_hh_x g (fst (fst e)) (snd (fst e))) (gedges g') =
+  filter (fun e : N * N * xedge => include_x m (snd e) || is_hh_x g (fst (fst e)) (snd (fst e))) (gedges g) ->
+  get_rc_x K false m g' = get_rc_x K false m g.
+Proof. intros En Ee. rewrite !get_rc_x_is_generic. apply (rcg_same_relevant xnode (sel_attr K) (sel_attr_hh K) ish_x charge_changed m g g' En). exact Ee. Qed.
+
+Corollary rcS_same_relevant K m (g g' : sits) : gnodes g' = gnodes g ->
+  filter (fun e : N * N * xedge => include_x m (snd e) || is_hh_g ish_S g (fst (fst e)) (snd (fst e))) (gedges g') =
+  filter (fun e : N * N * xedge => include_x m (snd e) || is_hh_g ish_S g (fst (fst e)) (snd (fst e))) (gedges g) ->
+  get_rc_S K false m g' = get_rc_S K false m g.
+Proof. intros En Ee. apply (rcg_same_relevant snode (selS K) (selS_hh K) ish_S cc_S m g g' En). exact Ee. Qed.
+
+(** disconnected = True is different: a spectator bond between two centre atoms IS re-added by _reconnect_rc_edges (witness) *)
+Definition sp_tri : xits := emb (LG [(1%N, ex_n 70%N); (2%N, ex_n 70%N); (3%N, ex_n 70%N)] [(1%N, 2%N, IE 2 0 2); (2%N, 3%N, IE 0 2 (-2)); (1%N, 3%N, IE 2 2 0)]).
+Definition sp_tri_cut : xits := emb (LG [(1%N, ex_n 70%N); (2%N, ex_n 70%N); (3%N, ex_n 70%N)] [(1%N, 2%N, IE 2 0 2); (2%N, 3%N, IE 0 2 (-2))]).
+Example C02_spectator_options_nonvacuous :
+  get_rc_x K_default false true sp_tri_cut = get_rc_x K_default false true sp_tri /\
+  length (gedges (get_rc_x K_default true false sp_tri)) = 3%nat /\ length (gedges (get_rc_x K_default true false sp_tri_cut)) = 2%nat.
+Proof.
+  split; [|vm_compute; split; reflexivity]. apply rcx_same_relevant; reflexivity.
+Qed.
